@@ -756,6 +756,18 @@ class Run:
                 buf[len(buf) - 1:len(buf) - 1] = chars
                 self.objlen[oid] = len(buf) - 1
                 return ('P', ('O', oid), 0) if False else ('OBJ', oid)
+            if oid not in self.strobjs and name in ('clear', 'resize') and len(e.get('a', [])) <= 1:
+                # Array object: clear() / resize(n) change the element count (new elements are zero)
+                buf = self.bufs[('O', oid)]
+                n_ = self.val(e['a'][0]) if e.get('a') else 0
+                if not isinstance(n_, int) or n_ < 0:
+                    raise OOB(('O', oid), n_ if isinstance(n_, int) else -1, len(buf), e.get('l'))
+                if n_ < len(buf):
+                    del buf[n_:]
+                else:
+                    buf.extend([0] * (n_ - len(buf)))
+                self.objlen[oid] = n_
+                return ('OBJ', oid)
             raise Unsupported('member call `%s` on a modelled object' % pe(e))
         if e.get('obj') is not None or e.get('clsp'):
             if name in self.call_ptrs and not e.get('a'):
